@@ -278,6 +278,7 @@ func checkC12(w *World, r *Report) {
 	c12SideEffects(w, r)
 	c12ExplicitStatus(w, r, "C12.8")
 	c12HeadersBeforeStatus(w, r)
+	c12NotApplicableStaysInside(w, r)
 	c12Challenge(w, r)
 	c12PlainMediaType(w, r)
 	c12ProxyErrorReachesFinalize(w, r)
@@ -1327,5 +1328,81 @@ func c12HeadersBeforeStatus(w *World, r *Report) {
 	}
 	if n == 0 {
 		r.Undecided(ri, "no function of the handler packages writes a response status")
+	}
+}
+
+// ---- C12.11: "no handler applies" hands the pipeline error back unchanged -----------------------------
+//
+// The conditional error handler says "not for me" with a sentinel. The composite must not let that
+// sentinel leave the rule: the translators classify what they get, and a sentinel has no kind - the
+// failure would be answered as 500 instead of 401/403/502. Decided on the composite's Execute: a
+// handler's result is returned only through the edge on which it was found *not* to be the
+// sentinel; otherwise the function returns nil (handled) or the error it was given.
+func c12NotApplicableStaysInside(w *World, r *Report) {
+	ri := r.Rule("C12.11", 1, "the 'error handler not applicable' sentinel never leaves the error pipeline: the composite returns a handler's error only where it was tested not to be the sentinel, else nil or the pipeline error it was given")
+	pa, err := findPipelineAnchors(w)
+	if err == nil && pa.notApplicable == nil && pa.condEH != nil {
+		// the sentinel: the package-level error the conditional handler returns
+		if ce := w.Method(pa.condEH, "Execute"); ce != nil {
+			for _, ret := range returnsOf(ce) {
+				for _, s := range w.Sources(ret.Results[0], ret.Block()) {
+					if g, ok := s.V.(*ssa.Global); ok && s.Kind == "global" {
+						pa.notApplicable = g
+					}
+				}
+			}
+		}
+	}
+	if err != nil || pa.compEH == nil || pa.notApplicable == nil {
+		r.Undecided(ri, "composite error handler / not-applicable sentinel not found")
+		return
+	}
+	fn := w.Method(pa.compEH, "Execute")
+	if fn == nil || fn.Blocks == nil {
+		r.Undecided(ri, "Execute of the composite error handler not found")
+		return
+	}
+	r.Analysed(w.FnName(fn))
+	isSentinelTest := func(c *ssa.Call, v ssa.Value) bool {
+		if c == nil || callName(c.Common()) != "errors.Is" || len(c.Common().Args) != 2 {
+			return false
+		}
+		if !sameValue(c.Common().Args[0], v) && c.Common().Args[0] != v {
+			return false
+		}
+		u, ok := c.Common().Args[1].(*ssa.UnOp)
+		return ok && u.X == ssa.Value(pa.notApplicable)
+	}
+	n := 0
+	for _, ret := range returnsOf(fn) {
+		if len(ret.Results) != 1 {
+			continue
+		}
+		n++
+		ok := true
+		for _, s := range w.Sources(ret.Results[0], ret.Block()) {
+			if s.Kind != "call" {
+				continue // nil, the parameter, a fresh error
+			}
+			sv := s.V
+			notSentinel := func(f Fact) bool {
+				if f.Kind != FFalse {
+					return false
+				}
+				c, _ := resultOfCall(f.V)
+				return isSentinelTest(c, sv)
+			}
+			at := s.At
+			if s.To == nil {
+				at = ret.Block()
+			}
+			if !(onlyVia(fn, at, notSentinel) || srcOnlyVia(fn, s, notSentinel)) {
+				ok = false
+			}
+		}
+		r.Ob(ri, fmt.Sprintf("%s|%s|sentinel-stays-inside", w.FnName(fn), retKey(w, fn, ret)), ret.Pos(), ok, "a handler's result can be returned without having been tested against the 'not applicable' sentinel: when no handler applies the caller receives the sentinel instead of the pipeline error, and the failure is answered as an internal error instead of by its kind")
+	}
+	if n == 0 {
+		r.Undecided(ri, "the composite error handler has no return")
 	}
 }
